@@ -101,6 +101,11 @@ def execute(darsia, ctx, key):
         M.update_params(dim=2, mass_coeff=coeff(op[1], 1.0), diffusion_coeff=coeff(op[2], 0.5))
         x0 = _data("m")
         return M(x0.copy(), rhs=x0 * 2.0)
+    if name == "SBTVDX":       # SBTVDX|mu : split Bregman TVD started from ONE caller-owned initial guess (image, d0, b0) kept between calls
+        if "x0" not in ctx:
+            rs = np.random.RandomState(11)
+            ctx["x0"] = (_data("a"), 0.1 * rs.rand(8, 6, 2), 0.1 * rs.rand(8, 6, 2))
+        return darsia.split_bregman_tvd(_data("a"), mu=float(op[1]), ell=1.0, max_num_iter=3, eps=None, x0=ctx["x0"])
     if name == "SBTVD":        # SBTVD|img|mu|ell
         return darsia.split_bregman_tvd(_data(op[1]), mu=float(op[2]), ell=float(op[3]), max_num_iter=4, eps=None)
     if name == "TVD":          # TVD|img|weight
@@ -137,6 +142,7 @@ ALPHABET = {
     "jacobi-array-coefficients": ["JACA|1.0", "JACA|3.0"],
     "jacobi-default-dim": ["H1dim|a|1.0|1.0|2", "H1dim|v|1.0|1.0|3", "H1|a|1.0|1.0|default"],
     "default-array-weights": ["H1A|bool|3", "H1A|float64|4", "H1A|float32|5", "H1A|int|6", "H1|a|1.0|1.0|default"],
+    "tvd-initial-guess": ["SBTVDX|0.5", "SBTVDX|0.2"],
     "tvd-array-weights": ["SBTVDA|bool|3", "SBTVDA|float64|4", "SBTVDA|float32|5", "SBTVD|a|0.5|1.0"],
     "mg-object": ["MG|1.0|1.0", "MG|1.0|0.1"],
     "mg-heterogeneous": ["MGH|2.0", "MGH|3.0"],
